@@ -148,9 +148,24 @@ class SdkDriver:
         elif k == "aborted_loop":
             class _Abort(Exception):
                 pass
+            form = s[2] if len(s) > 2 else "loop_ctx"
+
+            def _raises(*_a):
+                raise _Abort()
             try:
-                with conn.loop(s[1]):
-                    raise _Abort()
+                if form == "loop_ctx":
+                    with conn.loop(s[1]):
+                        raise _Abort()
+                elif form == "loop_body":
+                    conn.loop_body(_raises, s[1])
+                elif form == "loop_until":
+                    with conn.loop_until(s[1]):
+                        raise _Abort()      # (before an exit condition was set)
+                elif form == "if_cb":
+                    conn.if_eq(self.cvalue(s[3]), 0, _raises)
+                else:
+                    with self.cvalue(s[3]).if_eq(0):
+                        raise _Abort()
             except _Abort:
                 pass
         elif k == "flush":
